@@ -106,7 +106,11 @@ def _percent(fmt, args, node):
             out.append(("arity", node, f"format has more placeholders than arguments ({len(args)})"))
             i += 1
             continue
-        out.append(("hole", args[i], conv))
+        a_ = args[i]
+        if conv == "s" and m.group(0) == "%s" and isinstance(a_, ast.Constant) and isinstance(a_.value, str):
+            out.append(("lit", a_.value))  # a constant string filled into %s is that text
+        else:
+            out.append(("hole", a_, conv))
         i += 1
     if pos < len(fmt):
         out.append(("lit", fmt[pos:]))
@@ -342,7 +346,7 @@ class Builder:
         if isinstance(st, ast.Assign) and len(st.targets) == 1 and isinstance(st.targets[0], ast.Name):
             v = st.targets[0].id
             if v in self.track:
-                ents = self._list_entries(st.value) if isinstance(st.value, ast.List) else None
+                ents = self._list_entries(st.value) if isinstance(st.value, (ast.List, ast.Tuple)) else None
                 if ents is not None:
                     self.env[v] = [("listvar", ents)]
                 else:
